@@ -521,6 +521,15 @@ class RouteController:
 
     def delete_route_entry(self, route_entry: RouteEntry) -> None:
         """Deletes a route entry from BESS and the neighbor cache."""
+        # a route that is still waiting for its next hop was never installed: forget it, whatever
+        # is known about the next hop meanwhile (it may have been learnt for a later route already)
+        pending = self._unresolved_arp_queries_cache.get(route_entry.next_hop_ip)
+        if pending and route_entry in pending:
+            pending.remove(route_entry)
+            if not pending:
+                del self._unresolved_arp_queries_cache[route_entry.next_hop_ip]
+            return
+
         next_hop = self._neighbor_cache.get(route_entry.next_hop_ip)
 
         if next_hop:
@@ -569,12 +578,6 @@ class RouteController:
                 self._neighbor_cache[route_entry.next_hop_ip] = next_hop
         else:
             logger.info("Neighbor %s does not exist", route_entry.next_hop_ip)
-            # the route may still be waiting for its next hop to be resolved: forget it
-            pending = self._unresolved_arp_queries_cache.get(route_entry.next_hop_ip)
-            if pending and route_entry in pending:
-                pending.remove(route_entry)
-                if not pending:
-                    del self._unresolved_arp_queries_cache[route_entry.next_hop_ip]
 
     def _ping_missing_entries(self):
         """Pings missing entries every 10 seconds.
